@@ -392,6 +392,17 @@ fn def_extent(r: &Rendered, di: usize) -> Option<(Loc, Loc)> {
 /// for every other code the quoted name is, or may be, another element - a deprecated type, the first definition).
 const NAMES_ITS_PLACE: [&str; 13] = ["E007", "E008", "E009", "E011", "E012", "E013", "E016", "E019", "E020", "E035", "E036", "E037", "IncorrectDocComment"];
 
+/// (code, start of the note's shape) of notes that quote the identifier of the element they point at
+const NOTE_NAMES_ITS_PLACE: [(&str, &str); 7] = [
+    ("E010", "'_'was previously defined"),
+    ("E011", "'_'was previously defined"),
+    ("E012", "The tag'_'is already being'_'"),
+    ("E015", "struct'_'is declared compact"),
+    ("E022", "the value was'_'here:"),
+    ("IncorrectDocComment", "'_'is a struct"),
+    ("IncorrectDocComment", "operation'_'returns a single"),
+];
+
 /// If the first line of `message` quotes identifiers and exactly one named element of the file carries one of them:
 /// the extent (first token .. last token) of that element.
 fn named_element_extent(r: &Rendered, message: &str) -> Option<(Loc, Loc)> {
@@ -514,6 +525,40 @@ impl Family for DiagnosticSpans {
                     obligations += 1;
                     if !inside {
                         out.violate(format!("c09/diagnostic/{}/span-not-on-the-element-the-message-names", d.code), ctx(&format!("the message names an element that occupies {}:{}..{}:{}", extent.0.row, extent.0.col, extent.1.row, extent.1.col)));
+                    }
+                }
+            }
+            // a lint about a doc comment points into doc comment lines
+            if matches!(d.code.as_str(), "BrokenDocLink" | "MalformedDocComment" | "IncorrectDocComment") {
+                obligations += 1;
+                // (the row on which the span starts holds a '///' in front of the span; the layouts put blank lines, ordinary
+                // comments and tokens between and before the lines of one doc comment, so further rows are not judged)
+                let rows_ok = {
+                    let line: Vec<char> = lines.get(s.row - 1).map(|l| l.chars().collect()).unwrap_or_default();
+                    let slashes = (0..line.len().saturating_sub(2)).find(|i| line[*i] == '/' && line[i + 1] == '/' && line[i + 2] == '/');
+                    slashes.map_or(false, |i| s.col > i)
+                };
+                if !rows_ok {
+                    out.violate(format!("c09/diagnostic/{}/comment-lint-outside-doc-comment-lines", d.code), ctx("the row on which the span starts holds no '///' in front of it"));
+                }
+            }
+            // the same for notes that point into this file: "'S' was previously defined here" names the element it points at
+            for (nmsg, nsp) in &d.notes {
+                let Some((nfile, nsp)) = nsp else { continue };
+                let nfi: usize = nfile.trim_start_matches("string-").parse().unwrap_or(0);
+                let Some(nr) = keep.get(nfi) else { continue };
+                if let Some(extent) = named_element_extent(nr, nmsg) {
+                    let (ns, nt) = (Loc { row: nsp.sr, col: nsp.sc }, Loc { row: nsp.er, col: nsp.ec });
+                    let inside = le(extent.0, ns) && le(nt, extent.1);
+                    let shape: String = nmsg.split('\'').enumerate().map(|(i, part)| if i % 2 == 1 { "_".to_string() } else { part.split_whitespace().take(3).collect::<Vec<_>>().join(" ") }).collect::<Vec<_>>().join("'");
+                    if std::env::var_os("C09_ANCHOR_STATS").is_some() {
+                        eprintln!("NOTEANCHOR\t{}\t{}\t{}", d.code, shape, inside);
+                    }
+                    if NOTE_NAMES_ITS_PLACE.iter().any(|(c, sh)| *c == d.code && shape.starts_with(sh)) {
+                        obligations += 1;
+                        if !inside {
+                            out.violate(format!("c09/diagnostic/{}/note-span-not-on-the-element-the-note-names", d.code), ctx(&format!("note {nmsg:?} has the span {}:{}..{}:{} of file {nfi}, but the element it names occupies {}:{}..{}:{}", ns.row, ns.col, nt.row, nt.col, extent.0.row, extent.0.col, extent.1.row, extent.1.col)));
+                        }
                     }
                 }
             }
